@@ -60,10 +60,25 @@ CHECKS = {
         technique="TLA+ abstract heap (XoHeap.tla) with a Pickle step (twin relation closed along references) + TLC trace validation of real pickle round trips with Decode on the real bytes of the unpickled buffers",
         text="Groups of struct, array and hybrid objects (with references, several per buffer, several buffers and buffer kinds) are pickled together and unpickled; TLC extends the old-object -> twin relation along references using Decode on the bytes of the NEW buffers and requires: equal values, equal null-ness/member of every reference, the relation to be a bijection (what was shared is shared, nothing merged), objects that shared a buffer share one afterwards, fresh buffers; then reads through the unpickled handles (and hybrid attributes), assignments on both sides (independence) and new allocations in the unpickled buffer (no overlap with its live regions) continue as ordinary steps of the heap machine.",
         note="trusted: TLC; harness recording; generated classes are made importable through a synthetic module registered in sys.modules (same-process pickle round trip); histories pseudo-random"),
+    "C02": dict(
+        engine="capi", category="model_checking", design_ref="2 / C02",
+        technique="the tree's generator output (capi.py via ContextCpu._build_sources) specialised by the tree's specialize_source, compiled with a generated dispatcher and EXECUTED on real object images; every call validated by TLC against XoLayout!Nav/Decode (XoCapiTrace.tla)",
+        text='All generated accessors (get, getp, len, typeid, member) of all access paths (fields, indices, references) of generated types are executed with all in-range index tuples (sampled above 6 per array) on objects the library built at non-zero offsets, with neighbours, nested in structs and other arrays, in both CPU buffer kinds; TLC navigates the documented layout along the same path on the same bytes (XoLayout!Nav) and requires the same element address, value, length, member index and member address.',
+        note='trusted: TLC, gcc/clang, the generated dispatcher/main of the driver, the harness shadow that chooses in-range indices and non-null reference paths; types pseudo-random plus a systematic sweep of all axis orders of 2-D/3-D arrays; the implementation-shaped model of gen_method_offset (XoCapi) is future work, the verdict is taken on executed code'),
+    "C07": dict(
+        engine="capi", category="model_checking", design_ref="2 / C07",
+        technique="the tree's generator output (capi.py via ContextCpu._build_sources) specialised by the tree's specialize_source, compiled with a generated dispatcher and EXECUTED on real object images; every call validated by TLC against XoLayout!Nav/Decode (XoCapiTrace.tla)",
+        text='Every generated setter is executed on a copy of the buffer image; the driver reports every byte that differs afterwards and TLC requires the changed bytes to lie inside the addressed element (Nav) and the element to hold exactly the value passed. The same calls (all accessors) are repeated in a driver built with clang ASan+UBSan on exactly sized heap blocks with the object start 16-byte aligned (objects flush against the end of their buffer are included): any sanitizer report is a violation (Aux: observed by the sanitizers, TLC supplies cases and the address oracle).',
+        note='trusted: TLC, gcc/clang, the generated dispatcher/main of the driver, the harness shadow that chooses in-range indices and non-null reference paths; types pseudo-random plus a systematic sweep of all axis orders of 2-D/3-D arrays; the implementation-shaped model of gen_method_offset (XoCapi) is future work, the verdict is taken on executed code'),
+    "C15": dict(
+        engine="capi", category="model_checking", design_ref="2 / C15",
+        technique="the tree's generator output (capi.py via ContextCpu._build_sources) specialised by the tree's specialize_source, compiled with a generated dispatcher and EXECUTED on real object images; every call validated by TLC against XoLayout!Nav/Decode (XoCapiTrace.tla)",
+        text="The unspecialised API text is specialised by the tree's specialize_source for cpu_serial, cpu_openmp, opencl and cuda; (a) the token streams must be equal up to the target qualifiers, (b) the OpenCL and CUDA forms are host-compiled with the target keywords defined away and executed on the same calls: TLC validates their results against Nav/Decode and they must equal the CPU results call by call, (c) the OpenCL form is parsed by clang's OpenCL C 1.2 front end, which rejects a pointer into object memory that lost its __global qualifier.",
+        note='trusted: TLC, gcc/clang, the generated dispatcher/main of the driver, the harness shadow that chooses in-range indices and non-null reference paths; types pseudo-random plus a systematic sweep of all axis orders of 2-D/3-D arrays; the implementation-shaped model of gen_method_offset (XoCapi) is future work, the verdict is taken on executed code'),
 }
 
 # registry.d/<ID>.json entries (written by engine authors) are claimed only once the coordinator has seen the check
 # quiet on the unchanged tree and firing on a seeded defect
-READY_D = {"C13", "C14", "C17"}
+READY_D = {"C13", "C14", "C16", "C17"}
 
 NOT_YET = {}
